@@ -982,8 +982,10 @@ func runC15(c *lib.Ctx) {
 			continue
 		}
 		expected := replies[i]
-		if t, ok, _ := c15ModelText(orOkEmpty(replies[i])); ok && (cs.Mode == "fmt" || cs.Mode == "dest") {
-			expected = fmt.Sprintf("ok %q", c15Clip(t))
+		if cs.Mode == "fmt" || cs.Mode == "dest" {
+			if t, ok, _ := c15ModelText(orOkEmpty(replies[i])); ok {
+				expected = fmt.Sprintf("ok %q", c15Clip(t))
+			}
 		}
 		rec := map[string]any{"input": cs.lisp(), "cases": []fCase{cs}, "observed": impl.String(), "observed_related": impl.Extra,
 			"expected": expected, "expected_from": "model:fmt.run", "relies_on": []string{"SlipVerif.Theorems.C15"}}
